@@ -7,6 +7,7 @@ CONSTANT StopModes = {FALSE}
 CONSTANT ExitCodes = {0, 1}
 CONSTANT LaunchFail = FALSE
 CONSTANT SecondReaper = FALSE
+CONSTANT WakeupFd = TRUE
 CONSTANT AllowAbort = TRUE
 SPECIFICATION Spec
 INVARIANT C01
